@@ -250,4 +250,46 @@ Proof.
   - cbn. rewrite String.eqb_refl. reflexivity.
   - rewrite keyedf_cons, <- app_comm_cons. cbn [filter fst]. rewrite H. cbn [negb]. rewrite IH. reflexivity.
 Qed.
+(** the weighted aggregation: item i of the reduction dict {name_i: attach_weights(f, w_i)} meets column name_i *)
+Lemma agg_weighted_keyedf p (labels : list Z) (redv : val) (dw : list (list Q * list Q)) rest :
+  map_opt (agg_weighted labels (keyedf p (fun q : list Q * list Q => arr (fst q)) 0 dw ++ rest))
+          (keyedf p (fun q : list Q * list Q =>
+                       VO "weighted_reduction" [("reduction", redv); ("weights", arr (snd q))]) 0 dw) =
+  Some (keyedf p (fun q : list Q * list Q => arr (wreduce_col wred labels (fst q) (snd q))) 0 dw).
+Proof.
+  set (FS := (keyedf p (fun q : list Q * list Q => arr (fst q)) 0 dw ++ rest)%list).
+  assert (G : forall suf pre, dw = (pre ++ suf)%list ->
+            map_opt (agg_weighted labels FS)
+                    (keyedf p (fun q : list Q * list Q =>
+                                 VO "weighted_reduction" [("reduction", redv); ("weights", arr (snd q))])
+                            (List.length pre) suf) =
+            Some (keyedf p (fun q : list Q * list Q => arr (wreduce_col wred labels (fst q) (snd q)))
+                         (List.length pre) suf)).
+  { induction suf as [|x t IH]; intros pre E; [reflexivity|].
+    rewrite !keyedf_cons. cbn [map_opt]. unfold agg_weighted at 1. cbn [fst snd].
+    change (String.eqb "weighted_reduction" "weighted_reduction") with true. cbv iota.
+    assert (L : lookup FS (key p (List.length pre)) = Some (arr (fst x))).
+    { unfold FS. replace (List.length pre) with (0 + List.length pre)%nat by reflexivity.
+      rewrite (lookup_keyedf p (fun q : list Q * list Q => arr (fst q)) dw 0 (List.length pre) rest ([], [])).
+      - rewrite E, nth_middle. reflexivity.
+      - rewrite E, app_length. cbn [List.length]. lia. }
+    rewrite L. cbn [lookup String.eqb Ascii.eqb Bool.eqb]. rewrite !col_of_arr.
+    specialize (IH (pre ++ [x])%list). rewrite app_length in IH. cbn [List.length] in IH.
+    replace (List.length pre + 1)%nat with (S (List.length pre)) in IH by lia.
+    rewrite IH by (rewrite <- app_assoc; exact E). reflexivity. }
+  exact (G dw [] eq_refl).
+Qed.
 End PandasSpec.
+
+Lemma in_combine_seq_nth {A} (l : list A) d : forall a i c,
+  In (i, c) (combine (seq a (List.length l)) l) -> nth (i - a) l d = c.
+Proof.
+  induction l as [|x t IH]; intros a i c H; [destruct H|]. cbn [List.length seq combine] in H.
+  destruct H as [H|H]; [injection H as <- <-; rewrite Nat.sub_diag; reflexivity|].
+  assert (Hi := in_combine_l _ _ _ _ H). apply in_seq in Hi.
+  replace (i - a)%nat with (S (i - S a)) by lia. cbn [nth]. apply (IH (S a)). exact H.
+Qed.
+
+Lemma map2_fst_snd {A B C} (f : A -> B -> C) (l : list (A * B)) :
+  map2 f (map fst l) (map snd l) = map (fun q => f (fst q) (snd q)) l.
+Proof. induction l as [|x t IH]; [reflexivity|]. cbn [map map2]. rewrite IH. reflexivity. Qed.
